@@ -180,7 +180,7 @@ class CSSRuleRules(CSSRule):
         cssRules.__delitem__ == self.deleteRule
 
         for rule in cssRules:
-            rule._parentRule = self
+            rule._parent = rule._parentRule = self
             rule._parentStyleSheet = None
 
         self._cssRules = cssRules
@@ -222,6 +222,7 @@ class CSSRuleRules(CSSRule):
 
         try:
             # detach
+            self._cssRules[index]._parent = None
             self._cssRules[index]._parentRule = None
             del self._cssRules[index]
 
@@ -273,7 +274,7 @@ class CSSRuleRules(CSSRule):
             except xml.dom.DOMException:
                 for r in self._cssRules:
                     if not any(r is o for o in oldrules):
-                        r._parentRule = None
+                        r._parent = r._parentRule = None
                 del self._cssRules[:]
                 for r in oldrules:
                     self._cssRules.insert(len(self._cssRules), r)
@@ -289,7 +290,8 @@ class CSSRuleRules(CSSRule):
 
     def _finishInsertRule(self, rule, index):
         "add `rule` at `index`"
-        rule._parentRule = self
+        # (parent: the parent node, for a rule its parent rule)
+        rule._parent = rule._parentRule = self
         rule._parentStyleSheet = None
         self._cssRules.insert(index, rule)
         return index
